@@ -75,7 +75,7 @@ def _key(k):
 
 def member_limits(cfg, dim):
     G0, E0 = lab.default_limits(cfg['nested'], dim, cfg.get('npop', 4))
-    lim = cfg.get('limits') or [None, None]
+    lim = cfg.get('twice') or cfg.get('limits') or [None, None]     # a second solve runs under the raised limits
     return (G0 if lim[0] is None else lim[0]), (E0 if lim[1] is None else lim[1])
 
 
@@ -178,7 +178,7 @@ def judge(R):
         bad('best_energy_not_min', 'bestEnergy=%r but the member best energies are %r (min %r)' % (bestE, E, mn))
     elif not any(feq(e, mn) and x == bestX for e, x in zip(E, X)):
         bad('best_solution_not_members', 'bestSolution=%r is not the solution of a member with the minimal energy %r (members %r)' % (bestX, mn, X))
-    if np.isfinite(bestE) and not feq(objective(R, bestX), bestE):
+    if np.isfinite(bestE) and not cfg.get('sm_preload') and not feq(objective(R, bestX), bestE):
         bad('best_energy_not_cost_at_best', 'the ensemble reports bestSolution=%r with bestEnergy=%r but cost+penalty there is %r' % (bestX, bestE, objective(R, bestX)))
     # ---- 3. accounting
     ae = [int(v) for v in s._all_evals]
@@ -192,6 +192,7 @@ def judge(R):
     # ---- 4. starts
     box = R.box
     dim = R.dim
+    legacy_steps = bool(cfg.get('sm_preload'))
     starts = [tr.starts.get(i) for i in range(want_n)] if tr.starts else None
     firsts = [by[i][0][0] if by.get(i) else None for i in range(want_n)]
     if starts is not None:
@@ -206,6 +207,8 @@ def judge(R):
                     break
         for i, p in enumerate(starts):
             img = con_image(R, p)
+            if legacy_steps:
+                break
             if firsts[i] is not None and (box is None or inbox(img, box)) and firsts[i] != img:
                 bad('first_call_not_start', 'member %d was handed the start %r (constrained image %r) but first evaluated %r' % (i, p, img, firsts[i]))
                 break
@@ -280,7 +283,22 @@ def judge(R):
             if con_image(R, x) != x:
                 bad('evaluated_unconstrained', 'member %r evaluated %r which violates the constraint %s' % (_key(k), x, R.con.tag))
                 break
+    # member evaluation monitors: the legacy records the ensemble was handed, then exactly this member's calls
+    if (cfg.get('evalmon') or cfg.get('em_preload')) and cfg['nested'] != 'DE2' and not stray:
+        L0 = cfg.get('em_preload') or 0
+        for i, m in enumerate(members):
+            mine = [c[0] for c in by.get(i, ())]
+            ys = list(m._evalmon._y)
+            xs = [vec(x) for x in m._evalmon._x]
+            if len(ys) != L0 + len(mine) or (mine and xs[-len(mine):] != mine):
+                bad('member_monitor', 'member %d made %d cost calls and was handed %d legacy records, its evaluation monitor holds %d values / %d points (tail matches the calls: %r)'
+                    % (i, len(mine), L0, len(ys), len(xs), bool(mine) and xs[-len(mine):] == mine))
+                break
+            if len(xs) != len(ys):
+                pass    # SparsitySolver._InitialPoints appends the step monitor's points to the evaluation monitor it was given: recorded by tally_run, not judged
     for i, m in enumerate(members):
+        if legacy_steps:
+            break
         if np.isfinite(E[i]):
             logged = dict(by.get(i, ()))
             if X[i] not in logged or not feq(objective(R, X[i]), E[i]):
@@ -290,9 +308,11 @@ def judge(R):
     seen = {}
     for ev in tr.iters:
         seen[_key(ev['m'])] = seen.get(_key(ev['m']), 0) + 1
-    for why, i, k in past_stop(tr, G, EV)[:1]:
+    for why, i, k in ([] if legacy_steps else past_stop(tr, G, EV)[:1]):
         bad('member_ran_past_stop', 'member %r began iteration %d although %s' % (i, k, '; '.join(why)), reason=why[0].split(' ')[0])
     for i, m in enumerate(members):
+        if legacy_steps:
+            break
         msg = m.Terminated(info=True)
         if not msg:
             bad('member_unstopped', 'the solve returned but member %d meets none of its stop conditions (generations %d, evaluations %d)'
@@ -313,7 +333,7 @@ def judge(R):
                 bad('member_stop_untrue', 'member %d stopped with %r but its termination condition is false' % (i, msg[:70]))
                 break
     # ---- 7. differential: every member behaves like a stand-alone nested solver given the same start and configuration
-    if cfg.get('diff') and cfg['nested'] in ('NM', 'Powell') and starts is not None and cfg.get('clip') is not False and not stray:
+    if cfg.get('diff') and not legacy_steps and not cfg.get('twice') and cfg['nested'] in ('NM', 'Powell') and starts is not None and cfg.get('clip') is not False and not stray:
         term = R.term if R.term is not None else mt.NormalizedChangeOverGeneration(1e-4)
         for i, m in enumerate(members):
             ref = lab.solo(cfg, starts[i], term)
@@ -380,6 +400,11 @@ def tally_run(T, R, viol, case):
                     T.hist('member_stop', (m.Terminated(info=True) or 'none').split(' ')[0])
             ev = [int(v) for v in s._all_evals]
             T.hist('members_with_unequal_evals', len(set(ev)) > 1)
+            if cfg.get('em_preload') or cfg.get('sm_preload'):
+                T.hist('legacy_monitor_records(eval,step)', (cfg.get('em_preload') or 0, cfg.get('sm_preload') or 0))
+                T.hist('member_evalmon_points_vs_values_mismatch', any(len(m._evalmon._x) != len(m._evalmon._y) for m in s._allSolvers if m is not None))
+            if cfg.get('twice'):
+                T.hist('second_solve_made_calls', len(R.trace.calls) > getattr(R, 'calls_first', 0))
     for sig, detail in viol:
         T.violate(sig, case, detail + ' | cfg=%s' % _short(cfg) + (' choices=%r' % case['choices'] if case.get('choices') else ''))
 
